@@ -6,7 +6,16 @@ import subprocess, sys, os
 d, k, ids = sys.argv[1], sys.argv[2], sys.argv[3:]
 env = dict(os.environ, PYTHONPATH="/repo/pulser-core:/repo/pulser-simulation")
 def demo():
-    return subprocess.run(["/venv/bin/python", os.path.join(d, "demo%s.py" % k)], capture_output=True, text=True, env=env, cwd="/tmp")
+    # demos written in a sub-agent worktree may assert the worktree path: point them at /repo
+    import re, tempfile
+    src = open(os.path.join(d, "demo%s.py" % k)).read()
+    src = re.sub(r"/tmp/wt_C\d+", "/repo", src)
+    f = tempfile.NamedTemporaryFile("w", suffix=".py", delete=False, dir="/var/tmp")
+    f.write(src); f.close()
+    try:
+        return subprocess.run(["/venv/bin/python", f.name], capture_output=True, text=True, env=env, cwd="/tmp")
+    finally:
+        os.unlink(f.name)
 assert subprocess.run(["git", "-C", "/repo", "status", "--porcelain"], capture_output=True, text=True).stdout.strip() == "", "repo dirty"
 r0 = demo()
 print("demo pristine rc=%d" % r0.returncode)
